@@ -167,6 +167,14 @@ def gen_cases(ctx: Ctx) -> List[Dict[str, Any]]:
         if eng == "langevin":
             sc["damp"] = 20.0
         cases.append({"sc": sc, "crashes": [dict(step=5, upto=int(rng.integers(0, 7)), hard=bool(i % 2))]})
+    # real engine on molecules whose state is more than (species, coordinates, velocities): ions (total charge), a batch with mixed charges
+    ions = [(("oh-",), [-1]), (("h2o",), [2]), (("nh4+", "h2o"), [1, 0]), (("oh-", "h2"), [-1, 0])]
+    for i, (mols, ch) in enumerate(ions if ctx.thorough else [ions[ctx.seed % 2], ions[2 + ctx.seed % 2]]):
+        sc = sc_(dict(data=1, coordinates=1, velocities=1, forces=2, xyz=1, print=0, ckpt=2), 5, engine=["basic", "xl", "langevin", "basic"][(i + ctx.seed) % 4], stub=False, mols=mols, k=4)
+        sc["charges"] = ch
+        if sc["engine"] == "langevin":
+            sc["damp"] = 20.0
+        cases.append({"sc": sc, "crashes": [dict(step=4, upto=int(rng.integers(0, 7)), hard=False)]})
     return cases
 
 
